@@ -342,6 +342,7 @@ func sweep(env *vh.Env, rep *vh.Report, only map[string]bool, facts lockFacts) {
 						if !ok {
 							r.skipped = true
 						} else {
+							at("sweep %s.%s in state '%s' with argument seed %d", c.name, m, st.name, key)
 							r.out = vh.GuardTimeout(watchdog, func() { meth.Call(args) })
 							if !r.out.Timeout {
 								sz := reflect.ValueOf(obj).MethodByName("Size")
